@@ -18,10 +18,11 @@ from .base import Scenario, solo_events, callers_of
 OPS = {'add': np.add, 'subtract': np.subtract, 'multiply': np.multiply, 'divide': np.divide, 'power': np.power}
 DUNDER = {'s+': 'add', 's-': 'subtract', 's*': 'multiply', 's/': 'divide', 's**': 'power'}
 METHOD = {'Spectrum.' + k: k for k in OPS}
+AUGMENTED = {'s+=': 'add', 's-=': 'subtract', 's*=': 'multiply', 's/=': 'divide', 's**=': 'power'}     # x op= y through operator.iadd & co
 
 
 def op_of(fn):
-    return DUNDER.get(fn) or METHOD.get(fn)
+    return DUNDER.get(fn) or METHOD.get(fn) or AUGMENTED.get(fn)
 
 
 def canon(m):
@@ -128,6 +129,12 @@ class ArithHooks(Hooks):
         self.touched = set()
         self.gen = {}          # '@id' -> number of content assignments so far (results before/after are different operands)
 
+    def on_dirty(self, it, tid):
+        # the owner wrote into the arrays of one of its spectra: new content, like an assignment (results before / after are
+        # results of different operands)
+        self.gen['@' + tid] = self.gen.get('@' + tid, 0) + 1
+        it.fault('assign')
+
     def _snapshot(self, it):
         L = it.L
         return {k: MS.of(v) for k, v in it.store.items()
@@ -170,6 +177,10 @@ class ArithHooks(Hooks):
             it.probe('op_repeated_after_result_write')
         if ev.get('t', {}).get('history_operand'):
             it.probe('operand_with_history')
+        if ev.get('t', {}).get('augmented'):
+            it.probe('augmented_assignment_form')
+        if ev.get('t', {}).get('after_inplace_value_edit'):
+            it.probe('op_repeated_after_inplace_value_edit')
         if ev.get('id') and any(self.gen.get('@' + r, 0) for r in it.event_refs(ev)):
             self.touched.add(ev['id'])      # an operand's content was re-assigned by its owner before this call
         if opname is None:
@@ -342,7 +353,7 @@ class SpectrumArithScenario(Scenario):
                    'scipy.interpolate.interp1d is the trusted interpolation reference; two-element fill values are not generated for binary '
                    'operators (the statement speaks of "the fill value")']
     must_hit = ['pair:nm-nm', 'pair:nm-um', 'pair:angstrom-um', 'pair:m-nm', 'disjoint_ranges', 'sampling:left', 'sampling:right', 'sampling:float',
-                'op_repeated_after_to', 'commuted_pair', 'scalar_op', 'op_repeated_after_assignment', 'identity_scalar', 'ndarray_times_spectrum', 'blackbody_operand', 'op_repeated_after_result_write', 'operand_with_history']
+                'op_repeated_after_to', 'commuted_pair', 'scalar_op', 'op_repeated_after_assignment', 'identity_scalar', 'ndarray_times_spectrum', 'blackbody_operand', 'op_repeated_after_result_write', 'operand_with_history', 'augmented_assignment_form', 'op_repeated_after_inplace_value_edit']
     probe_names = must_hit + ['coldwarm_audit', 'ambiguous_grid', 'pair:um-um', 'pair:angstrom-nm', 'pair:m-um', 'pair:angstrom-m']
 
     # ---------------------------------------------------------------- generation
@@ -434,7 +445,9 @@ class SpectrumArithScenario(Scenario):
             if k or rng.random() < 0.5:
                 return E('Spectrum.' + opname, ['@' + a['id'], '@' + b['id']], k, t=tt)
             sym = [s for s, o in DUNDER.items() if o == opname][0]
-            return E(sym, ['@' + a['id'], '@' + b['id']], t={'expect': 'ok'})
+            if rng.random() < 0.2:
+                sym = sym + '='         # the augmented form: still a new spectrum, the left operand (held by others too) untouched
+            return E(sym, ['@' + a['id'], '@' + b['id']], t={'expect': 'ok', 'augmented': sym.endswith('=')})
 
         for _ in range(nsteps):
             r = rng.random()
@@ -548,6 +561,16 @@ class SpectrumArithScenario(Scenario):
                     d = copy.deepcopy(rng.choice(earlier))
                     d['id'] = nid('rep')
                     d.setdefault('t', {})['after_assign'] = True
+                    prog.append(d)
+            elif r < 0.755 and c == 0:
+                s = rng.choice(pool)
+                prog.append({'env': 'perturb_attr', 'c': c, 'target': '@' + s['id'], 'attr': 'value', 'how': 'noise', 'seed': rng.randrange(10 ** 6)})
+                earlier = [x for x in prog if 'fn' in x and op_of(x['fn']) and ('@' + s['id']) in x['a'] and x.get('t', {}).get('expect') == 'ok'
+                           and all(isinstance(y, str) for y in x['a']) and not isinstance(x.get('k', {}).get('sampling'), float)]
+                if earlier:
+                    d = copy.deepcopy(rng.choice(earlier))
+                    d['id'] = nid('rep')
+                    d.setdefault('t', {})['after_inplace_value_edit'] = True
                     prog.append(d)
             elif r < 0.78 and mine:
                 rid = rng.choice(mine)
